@@ -306,6 +306,7 @@ Section PrimPc.
       + rewrite Hsd. auto.
       + rewrite Hs. reflexivity.
       + rewrite Hws. reflexivity.
+      + rewrite Hcs. reflexivity.
       + intros. apply same_st_refl.
       + intros o _. rewrite HR, HW. auto.
       + intros y Hy. rewrite HR, HW, Hsd. split; [apply (sv_obj _ _ _ _ _ HI), Hy | apply (sv_objx _ _ _ _ _ HI _ _ Hy)].
@@ -456,6 +457,7 @@ Section PrimSide.
     - reflexivity.
     - reflexivity.
     - auto.
+    - reflexivity.
     - reflexivity.
     - reflexivity.
     - intros. apply same_st_refl.
@@ -782,6 +784,7 @@ Section Move.
       + rewrite Hsd. auto.
       + exact Hls.
       + rewrite Hws. reflexivity.
+      + rewrite Hcs. reflexivity.
       + intros y Hy. destruct (Hf y Hy) as (F1 & F2 & F3 & F4 & F5 & F6 & _).
         unfold same_st, marked. rewrite F1. auto.
       + intros o _. rewrite HW. auto.
@@ -1011,7 +1014,7 @@ Section Status.
         * destruct (Hva v Hvo) as [? ?]. exists (f x). auto.
         * rewrite Hgne by exact Hne. eauto.
       + intros v'. rewrite Hv. apply Hu.
-    - destruct I9. split; congruence.
+    - destruct I9 as (? & ? & ?). repeat split; congruence.
     - intros i w Hi. rewrite Hws in Hi. eauto.
     - intros w Hw. rewrite Hwp in Hw. eauto.
     - intros p xp j w Hp Hj. destruct (decide (p = a)) as [->|Hne].
@@ -1108,7 +1111,7 @@ Section Fresh.
       + intros o Ho. rewrite HD in Ho. destruct (I7 o Ho) as [y Hy]. eauto.
       + intros v o Hvo. rewrite Hv in Hvo. destruct (I8 v o Hvo) as [(y & Hy & ?) Hu]. split; [eauto|].
         intros v'. rewrite Hv. apply Hu.
-      + destruct I9. split; congruence.
+      + destruct I9 as (? & ? & ?). repeat split; congruence.
       + intros i w Hi. rewrite Hws in Hi. apply Hwn; [eauto|]. intros o ->. apply I13.
         assert (0 < cnt_w o (wslots m))%nat by (apply cnt_w_pos; eauto). rewrite wrefs_unfold. lia.
       + intros w Hw. rewrite Hwp in Hw. apply Hwn; [eauto|]. intros o [= ->]. apply I13.
@@ -1545,7 +1548,8 @@ Section WMove.
     heap m' = alter f a (heap m) ->
     slots m' = slots m -> bag m' = bag m -> values m' = values m ->
     pc m' = pc m -> dead m' = dead m -> pc_alive m' = pc_alive m -> st_collecting m' = st_collecting m ->
-    st_dropping m' = st_dropping m -> length (wslots m') = length (wslots m) -> NoBad m' ->
+    st_dropping m' = st_dropping m -> length (wslots m') = length (wslots m) ->
+    length (cslots m') = length (cslots m) -> NoBad m' ->
     (forall x, get m a = Some x ->
        o_hdr (f x) = o_hdr x /\ o_vst (f x) = o_vst x /\ o_box (f x) = o_box x /\ o_side (f x) = o_side x /\
        o_cls (f x) = o_cls x /\ o_ismap (f x) = o_ismap x /\ o_fields (f x) = o_fields x /\
@@ -1559,7 +1563,7 @@ Section WMove.
        (exists j', o_wfields x !! j' = Some w) \/ wnomap m w) ->
     Cur K b n E0 ex m0 E W' m'.
   Proof.
-    intros C Hh Hs Hb Hv Hpc Hd Hal Hcol Hsd Hls Hnb Hf Hwr Hw1 Hw2 Hw3.
+    intros C Hh Hs Hb Hv Hpc Hd Hal Hcol Hsd Hls Hlc Hnb Hf Hwr Hw1 Hw2 Hw3.
     pose proof (cur_inv _ _ _ _ _ _ _ _ _ C) as HI.
     assert (HR : forall o, refs m' o = refs m o).
     { intros o. eapply refs_alter_same; eauto. intros y Hy. destruct (Hf y Hy) as (_ & _ & _ & _ & _ & _ & F7 & F8 & _). auto. }
@@ -1572,6 +1576,7 @@ Section WMove.
       + rewrite Hsd. auto.
       + rewrite Hs. reflexivity.
       + exact Hls.
+      + exact Hlc.
       + intros y Hy. destruct (Hf y Hy) as (F1 & F2 & F3 & F4 & F5 & F6 & _).
         unfold same_st, marked. rewrite F1. auto.
       + intros o _. rewrite HR. auto.
@@ -1694,6 +1699,7 @@ Section SmallMoves.
     intros C Hc. pose proof (cur_inv _ _ _ _ _ _ _ _ _ C) as HI.
     eapply (Cur_wmove K b n E0 ex m0 E (olc v ++ W) (olc old ++ W) m _ 0%nat (fun x => x) C); try reflexivity.
     - cbn. rewrite alter_id_eq. reflexivity.
+    - cbn. apply insert_length.
     - eapply NoBad_log; [reflexivity | apply C].
     - apply (id_move_premise _ _ _ _ HI).
     - intros o. rewrite !wrefs_unfold, !cnt_wr_app.
@@ -1844,7 +1850,7 @@ Section Proj.
       + congruence.
       + intros o Ho. rewrite HD in Ho. rewrite HG. apply I7, Ho.
       + intros v o Hvo. destruct (Hv v o Hvo) as [(x & Hx & ?) Hu]. split; [|exact Hu]. exists x. rewrite HG. auto.
-      + destruct I9. split; congruence.
+      + destruct I9 as (? & ? & ?). repeat split; congruence.
       + intros i w Hi. rewrite Hws in Hi. intros o Ho. rewrite HM. eapply I10; eauto.
       + intros w Hw. rewrite Hwp in Hw. intros o Ho. rewrite HM. eapply I11; eauto.
       + intros p xp j w Hp Hj. rewrite HG in Hp. intros o Ho. rewrite HM. eapply I12; eauto.
